@@ -20,25 +20,17 @@ import NmVerif.Index.SelCommon
 -/
 namespace NmVerif.Index
 
-def shapeTakeAux (n : Nat) (axisU : Nat) : Nat → Shape → Shape
-  | _, [] => []
-  | i, x :: xs => (if i = axisU then n else x) :: shapeTakeAux n axisU (i + 1) xs
-
-def shapeTake (shape : Shape) (nIdx : Nat) (axis : Int) : Shape := shapeTakeAux nIdx (u64 axis) 0 shape
+def shapeTake (shape : Shape) (nIdx : Nat) (axis : Int) : Shape := mapAt (fun _ => nIdx) axis 0 shape
 
 def shapeTakeNone (nIdx : Nat) : Shape := [nIdx]
 
-/-- `indices[k]` converted to `size_t` -/
+/-- `indices[k]` (an `int`) converted to `size_t`: non-negative values unchanged, negative ones wrap -/
 def takeEntry (indices : List Int) (k : Nat) : Nat :=
   match indices[k]? with
-  | some v => u64 v
+  | some v => if v < 0 then u64 v else v.toNat
   | none => u64 (-1)
 
-def indexTakeAux (indices : List Int) (axisU : Nat) : Nat → Idx → Idx
-  | _, [] => []
-  | i, x :: xs => (if i = axisU then takeEntry indices x else x) :: indexTakeAux indices axisU (i + 1) xs
-
-def indexTake (d : Idx) (indices : List Int) (axis : Int) : Idx := indexTakeAux indices (u64 axis) 0 d
+def indexTake (d : Idx) (indices : List Int) (axis : Int) : Idx := mapAt (takeEntry indices) axis 0 d
 
 def indexTakeNone (d : Idx) (shape : Shape) (indices : List Int) : Idx :=
   match d with
